@@ -3,19 +3,7 @@
    list is exact.  All by vm_compute over the explicit enumerations, lifted with forallb_forall. *)
 From Coq Require Import List Bool Arith Lia.
 Import ListNotations.
-Require Import PonyV.Model.C04Expr PonyV.Model.C04Known PonyV.Gen.Priority.
-
-Lemma all_kinds_complete : forall k, In k all_kinds.
-Proof. intros k. unfold all_kinds. destruct k; simpl; repeat (try (left; reflexivity); right). Qed.
-
-Lemma kind_eqb_eq : forall a b, kind_eqb a b = true -> a = b.
-Proof.
-  intros a b H. unfold kind_eqb in H. apply Nat.eqb_eq in H.
-  destruct a; destruct b; simpl in H; try reflexivity; discriminate H.
-Qed.
-
-Lemma kind_eqb_refl : forall a, kind_eqb a a = true.
-Proof. intros a. unfold kind_eqb. apply Nat.eqb_refl. Qed.
+Require Import PonyV.Model.C04Expr PonyV.Model.C04Known PonyV.Gen.Priority PonyV.Proofs.C04Kinds.
 
 Definition table_ok (good : kind -> nat -> kind -> bool) : bool :=
   forallb (fun p => forallb (fun i => forallb (fun c => good p i c) all_kinds) all_pos) all_kinds.
